@@ -58,10 +58,38 @@ fn time_space(ctx: &mut Ctx, rng: &mut ChaCha20Rng) {
         Ok(w) => w,
         Err(_) => return ctx.skipped("baseline", "setup refused"),
     };
-    let (poly, shape) = stream_poly(&w, rng);
+    let (mut poly, shape) = stream_poly(&w, rng);
     let buf = BUFS[below(rng, BUFS.len())];
-    let alpha = Fr::rand(rng);
-    let desc = json!({"max_degree": w.max_degree, "len": poly.len(), "shape": format!("{:?}", shape), "msm_buffer": buf});
+    let mut alpha = Fr::rand(rng);
+    // a third of the cases: (polynomial, point) pairs whose quotient by (X - alpha) has zero coefficients
+    // strictly inside - the point is 0, 1, -1 or random and 1..3 coefficients are adjusted so that the Horner
+    // partial sum from the top vanishes there (random pairs produce such a quotient with probability len/|F|)
+    let mut pair = "random";
+    if rng.next_u32() % 3 == 0 && poly.len() >= 3 {
+        alpha = match rng.next_u32() % 5 {
+            0 => Fr::zero(),
+            1 => Fr::one(),
+            2 => -Fr::one(),
+            _ => alpha,
+        };
+        let n = poly.len();
+        if poly[n - 1].is_zero() {
+            poly[n - 1] = Fr::rand(rng);
+        }
+        let hits = 1 + below(rng, 3);
+        for _ in 0..hits {
+            // quotient coefficient q_j = sum_{i > j} c_i alpha^(i-j-1); make q_j zero for some 0 <= j <= n-3 by fixing c_{j+1}
+            let j = below(rng, n - 2);
+            let mut acc = Fr::zero();
+            for i in (j + 2..n).rev() {
+                acc = acc * alpha + poly[i];
+            }
+            poly[j + 1] = -(acc * alpha);
+        }
+        pair = "vanishing-quotient-coefficients";
+    }
+    ctx.count(&format!("single-point-pair:{}", pair), 1);
+    let desc = json!({"max_degree": w.max_degree, "len": poly.len(), "shape": format!("{:?}", shape), "msm_buffer": buf, "pair": pair});
     let res = guard(|| {
         let sck = CommitterKeyStream::from(&w.ck);
         let st = Reverse(poly.as_slice());
